@@ -164,6 +164,16 @@ pub fn run(cfg: &Cfg) -> i32 {
         ctx.count("enum3_raw_placements", raw);
         ctx.count("enum3_valid_positions", valid);
         ctx.count("enum3_checked", valid / stride);
+        if cfg.tier == engine::Tier::Thorough {
+            // four-man classes (every 7th placement): KQvKR, KRvKR, KBNvK, KPvKP, KQvKP, KNNvK
+            for class in super::c04::FOUR_MEN {
+                let (raw, valid) = super::c04::enum_four_men(shard, cfg.shards, class, 7, |p| {
+                    engine::run_one(ctx, |ctx| common::visit_position(ctx, p, &visit))
+                })?;
+                ctx.count("enum4_raw_placements", raw);
+                ctx.count("enum4_valid_positions_checked", valid);
+            }
+        }
         common::histories(ctx, seedf(1), cfg.per_shard(60_000, 1_200_000), 4, 40, None, &visit)?;
         Ok(())
     });
